@@ -2,7 +2,8 @@
 """seeded_record.py <ID> <json-string>  — copy /tmp/seed/out/<ID> deliverables into /verif/seeded/<ID>/ and write meta.json"""
 import json, os, shutil, sys
 ID, meta = sys.argv[1], json.loads(sys.argv[2])
-src, dst = "/tmp/seed/out/" + ID, "/verif/seeded/" + ID
+rnd = os.environ.get("ROUND", "")
+src, dst = "/tmp/seed/out" + rnd + "/" + ID, "/verif/seeded/" + ID + ("-r" + rnd if rnd else "")
 os.makedirs(dst, exist_ok=True)
 for f in os.listdir(src):
     p = os.path.join(src, f)
